@@ -370,3 +370,28 @@ fn test_dropped_write_error_still_fails_the_render() {
     // the writer was not called again after it failed
     assert_eq!((sink.0, sink.1.as_slice()), (3, &b"a<one>"[..]));
 }
+
+#[test]
+fn test_chain_does_not_nest_without_bound() {
+    // chaining a value with itself over and over must not build a value whose iteration or drop
+    // recurses once per round (this test runs on a 2 MiB thread)
+    for source in [
+        "{% set ns = namespace(acc=range(2)) %}{% for i in range(20000) %}{% set ns.acc = ns.acc|chain(range(2)) %}{% endfor %}{{ ns.acc|list|length }}",
+        "{% set ns = namespace(acc=[]) %}{% for i in range(20000) %}{% set ns.acc = range(2)|chain(ns.acc) %}{% endfor %}{{ ns.acc|list|length }}",
+        "{% set ns = namespace(acc=[]) %}{% for i in range(20000) %}{% set ns.acc = [i]|chain(ns.acc, (i,)) %}{% endfor %}{{ ns.acc|list|length }}",
+    ] {
+        assert!(render(source).is_ok(), "{}", source);
+    }
+    assert_eq!(
+        render("{% set ns = namespace(acc={}) %}{% for i in range(5000) %}{% set ns.acc = ns.acc|chain({'k': i, i: 1}) %}{% endfor %}{{ ns.acc.k }}|{{ ns.acc|length }}|{{ ns.acc[17] }}").unwrap(),
+        "4999|5001|1"
+    );
+    assert_eq!(
+        render("{{ {'a': 1}|chain({'a': 2}|chain({'b': 3}))|dictsort }}").unwrap(),
+        "[('a', 2), ('b', 3)]"
+    );
+    assert_eq!(
+        render("{{ range(2)|chain([5], (6,))|list }}").unwrap(),
+        "[0, 1, 5, 6]"
+    );
+}
